@@ -1,5 +1,6 @@
 import Andes.Model.Hex
 import Andes.Model.TdsDriver
+import Andes.Model.RegistryDriver
 import Andes.Model.ExprDriver
 import Andes.Model.IslandDriver
 import Andes.Model.SolverCacheDriver
@@ -19,6 +20,8 @@ def handle (line : String) : String :=
   | "slv" :: args => Andes.SolverCache.handleSlv args | "pfs" :: args => Andes.SolverCache.handlePfs args | "tdi" :: args => Andes.SolverCache.handleTdi args
   | "island" :: args => Andes.Island.handleIsland args
   | "ev" :: args => Andes.Expr.handleEv args
+  | "reg" :: args => Andes.Registry.handleReg args
+  | "uniq" :: args => Andes.Registry.handleUniq args
   | _ => "bad-op"
 
 partial def loop (h : IO.FS.Stream) : IO Unit := do
